@@ -27,7 +27,7 @@ fn alphabet(with_foreign_price: bool) -> Vec<Value> {
     a.push(json!({"op":"add","tie":true,"order":{"type":"Standard","vis":5}}));
     a.push(json!({"op":"add","tie":true,"order":{"type":"PostOnly","vis":4}}));
     if with_foreign_price { a.push(json!({"op":"add","order":{"type":"PeggedOrder","vis":6,"price":99}})); }
-    for q in [1u64, 3, 5, 7, 50] { a.push(json!({"op":"match","qty":q})); }
+    for q in [0u64, 1, 3, 5, 7, 50] { a.push(json!({"op":"match","qty":q})); }   // a zero-size match is a match request too
     for id in [1u64, 2] { a.push(json!({"op":"cancel","id":id})); }
     for (id, q) in [(1u64, 0u64), (1, 2), (1, 9), (2, 3)] { a.push(json!({"op":"update_qty","id":id,"qty":q})); }
     a.push(json!({"op":"update_price","id":1,"price":101}));
